@@ -6,6 +6,7 @@
 import IgrisModel.Common.Proto
 import IgrisModel.C20.Model
 import IgrisModel.C20.Spur
+import IgrisModel.C20.MainEv
 open Igris.Proto
 namespace Igris.C20.Drv
 
@@ -154,6 +155,10 @@ def stepLine (_ : Unit) (line : String) : Unit × String :=
     let q0 := if ini == "-" then [] else (ini.splitOn ",").filterMap String.toInt?
     let sc := if sched == "-" then [] else sched.toList.map fun c => c.toNat
     ((), runCase ps q0 sc)
+  | ["e", progs, _, sched] =>
+    let ps := (progs.splitOn "/").map fun p => (p.splitOn ",").filterMap Igris.C20.Ev.Drv.parseOp
+    let sc := if sched == "-" then [] else sched.toList.map fun c => c.toNat
+    ((), Igris.C20.Ev.Drv.runCase ps sc)
   | _ => ((), "bad-op")
 
 end Igris.C20.Drv
